@@ -172,7 +172,13 @@ pub fn run(ctx: &Ctx, rep: &mut Report) {
                             did = fresh.clone();
                             let mut a = conforming.clone();
                             a.message_id = did.clone();
-                            a.source_address.push(b'f');
+                            // another address: longer, or the same in another letter case
+                            let flipped: Vec<u8> = a.source_address.iter().map(|c| if c.is_ascii_lowercase() { c.to_ascii_uppercase() } else { c.to_ascii_lowercase() }).collect();
+                            if flipped != a.source_address && rng.chance(1, 2) {
+                                a.source_address = flipped;
+                            } else {
+                                a.source_address.push(b'f');
+                            }
                             approved = Some(a);
                         }
                         "approved-other-id" => {
